@@ -36,12 +36,12 @@ PROPS = {
                 rule='builder call sequences incl. repeats, reversed pairs, self edges, batches, out-of-range ids; non-trivial = at least one edge call; distinct = distinct call sequence',
                 exhaustive_scope='exh2ops: every sequence of <=2 (quick) / <=3 (thorough) edge calls from {L,C} x 9 ordered pairs on 3 nodes',
                 explanation='theorem: an edge call is refused iff a = b or a path b ~> a exists; refusal changes nothing; overwrite in place / append'),
-    'C17': dict(bundle='builder', tags=['GP', 'GN', 'GE', 'GI', 'GR', 'GS', 'GSE', 'GSI', 'GS2', 'GY'], kinds=['B'], monitor=rb.mon_c17,
+    'C17': dict(bundle='builder', tags=['GP', 'GN', 'GE', 'GI', 'GR', 'GS', 'GSE', 'GSI', 'GS2', 'GY', 'GYB', 'GYG'], kinds=['B'], monitor=rb.mon_c17,
                 nontrivial=lambda c: c.obs.get('GE', '-') != '-',
-                rule='builder cases with feature graph_info: from_graph, iter, iter_rev, serde_yaml_ng round trip; non-trivial = at least one edge',
+                rule='builder cases with feature graph_info: from_graph, iter, iter_rev, the YAML text, serde_yaml_ng round trips (string, Value, reader), two malformed-edge texts; non-trivial = at least one edge',
                 exhaustive_scope='as C11',
-                explanation='theorems: from_graph copies nodes (mapped) and raw edges and never panics; serialisation structure round-trips; iter/iter_rev topological. The YAML text layer is not modelled (correspondence only): partial',
-                assumptions=['serde + serde_yaml_ng text layer is exercised by the correspondence only, not modelled']),
+                explanation='theorems: from_graph copies nodes (mapped) and raw edges and never panics; serialisation structure round-trips; the YAML text (Yaml.v, writer as lines) is read back to the same value by a reader with petgraph\'s endpoint check, the reader accepts only written texts, the writer is injective; iter/iter_rev topological. serde_yaml_ng\'s scanner is not modelled: partial',
+                assumptions=['serde_yaml_ng: the text written for a GraphInfo<u64> is modelled line by line (Yaml.v) and compared byte for byte; its reader (scanner) is not modelled: tied to Yaml.gi_parse by the round trips and two malformed-edge texts per case only']),
     'C18': dict(bundle='builder', tags=['P', 'BT'], kinds=['B'], monitor=rb.mon_c18,
                 # the property is an upper bound on work: the implementation may do less than the model
                 # (whose work the theorem bounds), never more
